@@ -19,23 +19,33 @@ func FindByHash(
 	err error,
 ) {
 
-	var result *Tree
-
-	_, err = TreeFromStream(
-		stream,
-		WithHash{newState},
-		TapTree{
-			func(tree *Tree) {
-				if len(tree.Hash) > 0 &&
-					bytes.Equal(tree.Hash, hash) {
-					result = tree
-				}
-			},
-		},
-	)
+	root, err := TreeFromStream(stream)
 	if err != nil {
 		return nil, err
 	}
+	if root.Token == nil {
+		// empty stream
+		return nil, NotFound
+	}
+	// hash every node, inner compound and type-named values included
+	if err := root.FillHash(newState); err != nil {
+		return nil, err
+	}
+
+	var find func(tree *Tree) *Tree
+	find = func(tree *Tree) *Tree {
+		if len(tree.Hash) > 0 &&
+			bytes.Equal(tree.Hash, hash) {
+			return tree
+		}
+		for _, sub := range tree.Subs {
+			if found := find(sub); found != nil {
+				return found
+			}
+		}
+		return nil
+	}
+	result := find(root)
 
 	if result == nil {
 		return nil, NotFound
